@@ -17,7 +17,7 @@ ID = "C08"
 TITLE = "Field offsets and in-language layout intrinsics equal the real bit positions"
 RULE = (
     "Cases: (a) composite spec (struct / union / delimited, nested, capacities <= 12) x base offset set (1..3 values 0..130, aligned or "
-    "not) x 4 drawn values; (b) fixed-length array spec x base; (c) DSDL text of a struct / union with `@print _offset_` after every "
+    "not) x 4 drawn values; (b) fixed-length array spec x base; (c) DSDL text of a struct / union message or of a service (request and response sections) with `@print _offset_` after every "
     "field and `@print T._bit_length_` / `T._extent_` for every dependency.  Oracles: the offset of field i is the set "
     "pad(pad(base, 8) [+ header] + lengths of fields[:i], alignment of field i) evaluated by the independent set models (explicit set when "
     "<= 5000 elements, else min / max / residues); every field once, in order, by identity; union variants all at base + tag; ground "
@@ -182,31 +182,48 @@ def check_intrinsics(case: typing.Any, ctx: Ctx) -> Info:
                 return None
             return set(rbls.explicit(tr))
 
-        if fbody[0] == "union":
-            lines.append("@union")
-        if fbody[0] == "struct":
-            emit_query("_offset_", "set", {0})
-        for i, (fname, ft) in enumerate(body[1]):
-            lines.append((dsdl_type_text(ft, tb.refs) + " " + fname).strip())
-            if fbody[0] == "struct":
-                s = try_explicit(layout.struct_body(fbody[1], upto=i + 1))
+        def emit_section(sec_spec: typing.Any) -> None:
+            sbody = sec_spec[1] if sec_spec[0] == "delim" else sec_spec
+            fsb = layout.freeze(sbody)
+            if fsb[0] == "union":
+                lines.append("@union")
+            if fsb[0] == "struct":
+                emit_query("_offset_", "set", {0})
+            for i, (fname, ft) in enumerate(sbody[1]):
+                lines.append((dsdl_type_text(ft, tb.refs) + " " + fname).strip())
+                if fsb[0] == "struct":
+                    s = try_explicit(layout.struct_body(fsb[1], upto=i + 1))
+                    if s is not None:
+                        emit_query("_offset_", "set", s)
+            if fsb[0] == "union":
+                s = try_explicit(layout.union_body(fsb[1]))
                 if s is not None:
                     emit_query("_offset_", "set", s)
-        if fbody[0] == "union":
-            s = try_explicit(layout.union_body(fbody[1]))
-            if s is not None:
-                emit_query("_offset_", "set", s)
-        for dep_spec, dep_fn in tb.order[:-1]:
+            if sec_spec[0] == "delim":
+                lines.append("@extent %d" % layout.extent(layout.freeze(sec_spec)))
+            else:
+                lines.append("@sealed")
+
+        response = case.get("response")
+        n_deps = len(tb.order) - 1
+        if response is not None:
+            # the response's own dependencies are emitted too (its fields may be composites)
+            rbody = response[1] if response[0] == "delim" else response
+            for _, ft in rbody[1]:
+                tb.emit(ft)
+        emit_section(top_spec)
+        deps = [x for x in tb.order if x[1] != top_fn]
+        for dep_spec, dep_fn in deps:
             ref = dep_fn[: -len(".dsdl")]
             fdep = layout.freeze(dep_spec)
             s = try_explicit(layout.tree(fdep))
             if s is not None:
                 emit_query("%s._bit_length_" % ref, "set", s)
             emit_query("%s._extent_" % ref, "int", layout.extent(fdep))
-        if top_spec[0] == "delim":
-            lines.append("@extent %d" % layout.extent(layout.freeze(top_spec)))
-        else:
-            lines.append("@sealed")
+        if response is not None:
+            # a service: the response section starts from scratch (no field of the request is before any of its points)
+            lines.append("---")
+            emit_section(response)
         tb.files[top_fn] = "\n".join(lines) + "\n"
         root = tb.write()
         prints: typing.List[typing.Tuple[str, int, str]] = []
@@ -231,11 +248,13 @@ def check_intrinsics(case: typing.Any, ctx: Ctx) -> Info:
         by_name = {t.short_name: t for t in types}
         for dep_spec, dep_fn in tb.order:
             t = by_name[dep_fn.split(".")[0]]
+            if isinstance(t, pydsdl.ServiceType):
+                t = t.request_type
             require(t.extent == layout.extent(layout.freeze(dep_spec)), "extent", layout.extent(layout.freeze(dep_spec)), t.extent, dep_fn)
     finally:
         ctx.cleanup(d)
     n_queries = sum(1 for v in expected.values() if v[1] is not None)
-    return Info(n_queries >= 2, ["text", "top:" + top_spec[0], "queries:%d" % min(n_queries, 6)], sample={"file": text})
+    return Info(n_queries >= 2, ["text", "top:" + top_spec[0], "queries:%d" % min(n_queries, 6)] + (["service"] if case.get("response") is not None else []), sample={"file": text})
 
 
 def _cases() -> st.SearchStrategy:
@@ -268,5 +287,9 @@ def parts(ctx: Ctx) -> typing.List[Part]:
     return [
         Part("offsets", _cases(), check_offsets, weight=5),
         Part("array-elements", _array_cases(), check_array_offsets, weight=1),
-        Part("intrinsics", st.fixed_dictionaries({"spec": gt.composites(gt.small_capacity(), max_leaves=6)}), check_intrinsics, weight=2, cost=5.0),
+        Part(
+            "intrinsics",
+            st.fixed_dictionaries({"spec": gt.composites(gt.small_capacity(), max_leaves=6), "response": st.one_of(st.none(), gt.composites(gt.small_capacity(), max_leaves=4))}),
+            check_intrinsics, weight=2, cost=5.0,
+        ),
     ]
